@@ -5,6 +5,8 @@ import hashlib
 import json
 import multiprocessing as mp
 import os
+import shutil
+import subprocess
 import random
 import sys
 import time
@@ -141,6 +143,19 @@ def _work(idx: int) -> dict:
             failures_by_label.setdefault(f.label, []).append(f)
         if r.status == "ok" and id(r) in vset and r.witness is not None:
             I, err = _concrete_run(inst, r.witness)
+            if I.failed:
+                # the real build fails a labelled assertion of the property on this path's
+                # solver-chosen input although the symbolic run proved it: the model of the
+                # environment diverges from the real build here (recorded below as a
+                # mismatch), and the failure itself is a violation reproduced on the real code
+                for lab in I.failed:
+                    if any(f.label == lab for f in r.failed):
+                        continue  # the symbolic run refutes it too: reported through the counterexample replay below
+                    d = out["labels"].setdefault(lab, {"proved": 0, "failed": 0})
+                    d["failed"] += 1
+                    if not any(v["label"] == lab for v in out["violations"]):
+                        out["violations"].append({"label": lab, "instance": inst.name, "inputs": r.witness,
+                                                  "note": "fails on the real build for a solver-chosen input of a path the symbolic run accepted (model/implementation divergence)", "count": 1})
             if err is not None:
                 out["validation_mismatch"].append({"why": "concrete run raised: " + err[:600], "inputs": _short(r.witness)})
             else:
@@ -249,6 +264,13 @@ def run_property(pid: str, instances: List[Instance], meta: dict, tier: str, see
     stop_after_violating = int(os.environ.get("SYMTDF_STOP_AFTER_VIOLATING_INSTANCES", "12"))
     results_by_idx: Dict[int, dict] = {}
     skipped_instances: List[str] = []
+    # cross-solver sample: workers (forked below) write every k-th decided query as SMT-LIB2
+    xdir = os.path.join(OUT, "xcheck", pid)
+    do_x = not os.environ.get("BASICTDF_SRC") and os.environ.get("SYMTDF_XCHECK", "1") != "0"
+    if do_x:
+        shutil.rmtree(xdir, ignore_errors=True)
+        os.makedirs(xdir, exist_ok=True)
+        E._XDIR, E._XRATE, E._XCAP = xdir, (23 if tier == "quick" else 97), (6 if tier == "quick" else 16)
     if jobs > 1 and len(_INSTANCES) > 1:
         ctxmp = mp.get_context("fork")
         pool = ctxmp.Pool(min(jobs, len(_INSTANCES)))
@@ -370,6 +392,9 @@ def run_property(pid: str, instances: List[Instance], meta: dict, tier: str, see
         print(f"VIOLATION property={pid} replay={path}")
         print(f"  label={v['label']} instance={v['instance']} {v.get('note', '')}")
 
+    cross = cross_check(xdir, seed, 64 if tier == "quick" else 192) if do_x else {"skipped": "run against a scratch copy"}
+    if cross.get("disagreements"):
+        inconclusive.append(f"solvers disagree on {len(cross['disagreements'])} sampled quer(ies): {cross['disagreements'][:3]}")
     wall = time.time() - t0
     status = EXIT_OK
     if violations:
@@ -401,6 +426,7 @@ def run_property(pid: str, instances: List[Instance], meta: dict, tier: str, see
             "queries_answered_from_cache": tot["cache_hits"],
             "solver_s": round(tot["solver_s"], 2),
             "solver": "z3 " + _z3v(),
+            "cross_solver_sample": cross,
             "functions_encoded": sorted(functions),
             "bounds": meta.get("bounds", {}).get(tier, meta.get("bounds", {})),
             "outside_bounds": meta.get("outside_bounds", []),
@@ -437,6 +463,68 @@ def run_property(pid: str, instances: List[Instance], meta: dict, tier: str, see
     for p in inconclusive[:8]:
         print("INCONCLUSIVE:", p[:600])
     return status
+
+
+_OTHER_SOLVERS = [("z3-4.8.12", ["/usr/bin/z3", "-T:20"], ""), ("cvc5-1.0", ["/usr/bin/cvc5", "--lang=smt2", "--tlimit=20000"], "(set-logic ALL)\n")]
+
+
+def _xrun(job):
+    path, name, cmd, prologue = job
+    with open(path) as fh:
+        text = fh.read()
+    expected = text.split("\n", 1)[0].replace("; expected:", "").strip()
+    tmp = f"{path}.{name}.smt2"
+    with open(tmp, "w") as fh:
+        fh.write(prologue + text + ("" if "(check-sat)" in text else "\n(check-sat)\n"))
+    try:
+        p = subprocess.run(cmd + [tmp], capture_output=True, text=True, timeout=40)
+        out = (p.stdout + p.stderr).strip()
+    except subprocess.TimeoutExpired:
+        out = "timeout"
+    finally:
+        try:
+            os.unlink(tmp)
+        except OSError:
+            pass
+    first = out.split("\n", 1)[0].strip() if out else ""
+    if "(error" in out or first not in ("sat", "unsat"):
+        got = "other"  # unknown / timeout / a construct this solver does not parse: no verdict
+    else:
+        got = first
+    return path, name, expected, got, out[:200]
+
+
+def cross_check(xdir: str, seed: int, cap: int) -> dict:
+    """Re-decide a sample of the run's solver queries with the other installed solvers."""
+    import random
+    files = sorted(f for f in os.listdir(xdir) if f.endswith(".smt2"))
+    random.Random(seed).shuffle(files)
+    files = files[:cap]
+    solvers = [s for s in _OTHER_SOLVERS if os.path.exists(s[1][0])]
+    res = {"queries_sampled": len(files), "solvers": {}, "disagreements": []}
+    if not files or not solvers:
+        res["note"] = "no sample" if not files else "no other solver installed"
+        return res
+    jobs = [(os.path.join(xdir, f), n, c, pro) for f in files for (n, c, pro) in solvers]
+    from concurrent.futures import ThreadPoolExecutor
+    t0 = time.time()
+    with ThreadPoolExecutor(16) as ex:
+        outs = list(ex.map(_xrun, jobs))
+    for path, name, expected, got, raw in outs:
+        d = res["solvers"].setdefault(name, {"agree_sat": 0, "agree_unsat": 0, "no_verdict": 0, "disagree": 0})
+        if got == "other":
+            d["no_verdict"] += 1
+        elif got == expected:
+            d["agree_" + got] += 1
+        else:
+            d["disagree"] += 1
+            res["disagreements"].append({"file": path, "solver": name, "z3": expected, "other": got})
+    res["wall_s"] = round(time.time() - t0, 2)
+    keep = {d["file"] for d in res["disagreements"]}
+    for f in os.listdir(xdir):
+        if os.path.join(xdir, f) not in keep:
+            os.unlink(os.path.join(xdir, f))
+    return res
 
 
 def _z3v() -> str:
